@@ -142,22 +142,17 @@ def parseSetup (j : Json) : R Setup := do
         | [m, p, w] => return (((← parseMod m), (← p.getStr?).toList), (← w.getNat?))
         | _ => throw "bad omitWithin item"))
     | .error _ => pure []
-  let rwL ← match j.getObjVal? "rw" with
+  -- the parameter table of ALL modules of the node: [module, exported name, readonly, constant, has a read_ function]
+  let parL ← match j.getObjVal? "params" with
     | .ok x => (do (← arr x).mapM (fun y => do
         match (← arr y) with
-        | [w, s, k] =>
-          let wb ← w.getBool?
-          let (m, p) ← parseRwSpec wb (← s.getStr?).toList
-          let kind ← match k with
-            | .str "calls" => pure RwKind.calls
-            | .str "plain" => pure RwKind.plain
-            | .str "refuse" => pure RwKind.refuse
-            | _ => throw "bad rw kind"
-          return ((wb, m, p), kind)
-        | _ => throw "bad rw item"))
+        | [m, p, ro, co, hr] =>
+          return (((← parseMod m), (← p.getStr?).toList), (⟨(← ro.getBool?), (← co.getBool?), (← hr.getBool?)⟩ : ParInfo))
+        | _ => throw "bad params item"))
     | .error _ => pure []
+  let look : Mod → Par → Option ParInfo := fun m p => (parL.find? (fun x => x.1 == (m, p))).map (·.2)
   let cfg : Cfg := ⟨mods.map (·.1), lookupD mods [], conns, fun c => broken.contains c, fun m p => lookupD omitL 0 (m, p),
-    fun w m p => lookupD rwL .refuse (w, m, p)⟩
+    rwKindOf look⟩
   return ⟨cfg, fun m p => lookupD cache (.err 0 0) (m, p), mods.flatMap (fun x => x.2.map (fun p => (x.1, p)))⟩
 
 /-- run the invisible actions of the scheduler's thread `t` (inside a call the acting model thread is the connection's
